@@ -449,6 +449,11 @@ class Check:
             return True
         return False
 
+    def has_failing(self):
+        """has a violation with a concrete failing input been found?  (a broken-correspondence report alone does not stop the
+        later parts of a check: one of them may still find the failing input)"""
+        return any(v["failing_input_found"] for v in self.violations)
+
     def known_open(self, kid):
         return kid in self.open
 
@@ -538,6 +543,9 @@ class Scratch:
         base = os.path.join(BUILD, "scratch")
         os.makedirs(base, exist_ok=True)
         self.dir = tempfile.mkdtemp(prefix="t", dir=base)
+        # typeshare's walker honours .gitignore files of the enclosing git repository, and /verif is one (its .gitignore lists
+        # `build/`): an empty `.git` directory makes the scratch directory a repository root of its own, so nothing outside it applies
+        os.mkdir(os.path.join(self.dir, ".git"))
         return self
 
     def __exit__(self, *a):
